@@ -237,7 +237,7 @@ def _trailing_operator(m):
     prev = None
     while prev != m:
         prev = m
-        m = re.sub(r"(?:!=|<=|>=|[-+|<>=]|\b(?:or|and|div|mod)\b)\s*(?=[)\],]|$)", "", m)
+        m = re.sub(r"(?:!=|<=|>=|[-+|<>=*]|\b(?:or|and|div|mod)\b)\s*(?=[)\],]|$)", "", m)
     return m
 
 
@@ -252,7 +252,7 @@ def _odd_number_or_variable(m):
 # known leniencies of the tokenizer / compiler; each class is decided by undoing exactly that leniency
 # and asking the recogniser again
 LENIENCIES = [
-    ("K11", lambda m: re.sub(r"([!<>])\s+=", r"\1=", m)),                       # '! =' '< =' '> ='
+    ("K11", lambda m: re.sub(r"/\s+/", "//", re.sub(r"([!<>])\s+=", r"\1=", m))),   # also '/ /' read as '//'                        # '! =' '< =' '> ='
     ("K25", lambda m: re.sub(r"\$\s+", "$", re.sub(r"(?<!:):\s+(?!:)", ":", m))),  # 'p: a', '$ x'
     ("K26", lambda m: re.sub(r"/\s*\)", ")", m)),                                # 'b/)'
     ("K27", _empty_parens),
@@ -261,31 +261,27 @@ LENIENCIES = [
 ]
 
 
-def malformed_stream(ctx, cases, impl, known, hits, n):
-    """'Strings that are not XPath expressions are rejected with an error': mutate valid expression
-    strings (delete / insert / swap / truncate), decide validity with the independent recogniser
-    vlib/xpsyntax.py, and require a compile error from the library for every string it refuses."""
-    # the stream is the same on every run (its own fixed PRNG state, not VERIF_SEED): the library's
-    # compiler is lenient in several recorded ways, and every string of this fixed stream that it
-    # accepts has been classified; a newly accepted string is a violation
+MALFORMED_DOC = "D:(a @x=u:31 (b t=u:32 ) (c ) )|C:1;1|V:n1=n:3ff0000000000000;s1=s:u:61;b1=b:1;ns1=ns:1;e1=ns:|N:p=u:75,72,6e,3a,70;q=u:75,72,6e,3a,71"
+
+
+def gen_malformed(n, seed=20261001):
+    """mutate valid expression strings (delete / insert / swap / truncate) and keep those the independent
+    recogniser vlib/xpsyntax.py refuses"""
     import random
 
     class _Shim:
-        rng = random.Random(20261001)
+        rng = random.Random(seed)
+
         def count(self, *a, **k):
             pass
     shim = _Shim()
     r = shim.rng
-    cases = gen_cases(shim, 40, 20, 3)
+    base = [c for c in gen_cases(shim, 40, 20, 3) if len(c["str"]) > 0]
     alphabet = "()[]/|@*$.,:=!<>+- 'a1\""
-    lines, info = [], {}
-    base = [c for c in cases if len(c["str"]) > 0]
-    k = 0
-    tries = 0
-    while k < n and tries < 20 * n and base:
+    out, seen, tries = [], set(), 0
+    while len(out) < n and tries < 40 * n:
         tries += 1
-        c = r.choice(base)
-        t = list(c["str"])
+        t = list(r.choice(base)["str"])
         for _ in range(r.choice([1, 1, 1, 2, 3])):
             op = r.randrange(4)
             if op == 0 and t:
@@ -298,17 +294,39 @@ def malformed_stream(ctx, cases, impl, known, hits, n):
             elif t:
                 del t[r.randrange(len(t)):]
         m = "".join(t)
-        if not m.strip() or m == c["str"] or xpsyntax.recognise(m):
-            ctx.count("malformed:still-valid")
+        if not m.strip() or m in seen or xpsyntax.recognise(m):
             continue
+        seen.add(m)
+        out.append(m)
+    return out
+
+
+def freeze():
+    """maintenance: (re)write the frozen malformed streams; afterwards run both tiers on the unchanged tree
+    and classify every accepted string (python3 -c 'from props import C02; C02.freeze()')"""
+    cdir = os.path.join(core.VERIF, "corpus", "C02")
+    for name, n in (("malformed_quick.lst", 1500), ("malformed_thorough.lst", 20000)):
+        with open(os.path.join(cdir, name), "w") as f:
+            for m in gen_malformed(n):
+                f.write(xpgen.tok(m) + "\n")
+
+
+def malformed_stream(ctx, cases, impl, known, hits, n):
+    """'Strings that are not XPath expressions are rejected with an error'.  The stream is FROZEN in
+    corpus/C02/malformed_<tier>.lst (strings the independent recogniser vlib/xpsyntax.py refuses): the
+    library's compiler is lenient in several recorded ways (K11, K25-K29), every string of the frozen
+    stream that it accepts has been classified, and a newly accepted string is a violation."""
+    name = "malformed_thorough.lst" if n > 5000 else "malformed_quick.lst"
+    path = os.path.join(core.VERIF, "corpus", "C02", name)
+    if os.path.exists(path):
+        toks = [l.strip() for l in open(path) if l.strip()]
+    else:
+        toks = [xpgen.tok(m) for m in gen_malformed(n)]
+    lines, info = [], {}
+    for k, t in enumerate(toks):
         cid = "m%d" % k
-        line = c["line"].split("|")
-        line[0] = cid
-        line = [f for f in line if not f.startswith("A:")]
-        line = [("X:" + xpgen.tok(m)) if f.startswith("X:") else f for f in line]
-        lines.append("|".join(line))
-        info[cid] = m
-        k += 1
+        lines.append("%s|eval|%s|X:%s" % (cid, MALFORMED_DOC, t))
+        info[cid] = u16_to_str(t)
     if not lines:
         return
     rc, res, raw = core.run_lines_parallel(impl, lines, sep="|")
